@@ -6,7 +6,7 @@ SPEC = {
                   "appends it (order extracted from the source); forwarding rule; Apply is state-passing and returns the plugin unchanged, "
                   "n-fold rebuilds are identical; PREF64 lifetime = min(65528 s, 8 s * ceil(3*max/8 s)). Tie: differential runs of "
                   "config.Parse + Interface.RouterAdvertisement on generated TOML x system states, plus implementation-only checks "
-                  "(k builds deeply equal, configuration snapshot unchanged, no sharing between a returned RA and the configuration).",
+                  "(k builds deeply equal, deep configuration snapshot unchanged by building).",
     "level_note": "Trusted: Coq kernel + vm_compute; goextract (plugin order, Apply option types, NewPREF64 constants); the Go driver "
                   "(conversion of config.Interface / ndp options to Gallina terms); wildcard expansion functions are mirrored from the "
                   "Go code (their own properties are C13-C15); go-toml decoding is outside the model.",
@@ -20,7 +20,7 @@ SPEC = {
             "Non-trivial: the configuration was accepted and has at least one plugin; distinct by canonical input.",
     "nontrivial": lambda c: bool(c.get("coq")) and c.get("input", {}).get("plugins", 0) > 0,
     "trusted": ["wildcard expansions (Prefix.current, Route.current, RDNSS.current) are part of the model by mirroring; their specifications are C13-C15",
-                "aliasing / mutation freedom of the configuration is checked on the implementation only (reflect-based deep snapshots)"],
+                "'building never alters the configuration' is checked on the implementation only (reflect-based deep snapshots before / after)"],
     "assumptions": ["the plugin sources are injected (Addrs/Routes/TimeNow/LLA.Addr) as Prepare would set them; a nil source (unprepared plugin) is C17's subject",
                     "clock readings and epoch + lifetime stay inside the int64 nanosecond range"],
     "extra_targets": ["Proofs/Build.v"],
